@@ -2432,7 +2432,8 @@ pub proof fn lemma_sig_ns_normal(segs: Seq<Seq<char>>)
 
 // ---- unit theory.inverse6  <= (contracts):0 ----
 // ---- part 6 (C09): phase_a / phase_b applied to canon_spec of ARBITRARY handed-out parts ----
-// (generated from part 4 by replacing the two round-trip steps with their general versions; see tools note in DESIGN.md)
+// (derived from part 4 by replacing the two round-trip steps with their general versions; the raw splits are exposed as well,
+// for the injectivity theorem of C19)
 /// what build() guarantees of the parts whatever the builder was given: a name, the qualifier invariant, no empty value
 pub open spec fn gen_parts(p: PurlParts) -> bool {
     p.name@.len() > 0 && wf_seq(p.qualifiers.qualifiers@)
@@ -2454,6 +2455,7 @@ pub proof fn lemma_pb_version_gen(p: PurlParts)
     ensures
         rsplit_at(rest_of(p), '@').0 == r1_of(p),
         (match rsplit_at(rest_of(p), '@').1 { None => Some(Seq::<char>::empty()), Some(x) => dec(x) }) == Some(p.version@),
+        rsplit_at(rest_of(p), '@').1 == (if p.version@.len() > 0 { Some(enc(SetId::Path, p.version@)) } else { None::<Seq<char>> }),
 { }
 
 /// the name is what follows the last '/' of what precedes the version; the namespace is what precedes it
@@ -2465,6 +2467,8 @@ pub proof fn lemma_pb_ns_name_gen(p: PurlParts)
         let name_raw = if last_index_of(r1, '/') < 0 { r1 } else { r1.subrange(last_index_of(r1, '/') + 1, r1.len() as int) };
         (match ns_raw { None => Some(Seq::<char>::empty()), Some(x) => ns_fold(split_spec(trim_spec(x, '/'), '/')) }) == Some(sig_ns(p.namespace@))
         && dec(name_raw) == Some(p.name@)
+        && ns_raw == (if p.namespace@.len() > 0 { Some(enc(SetId::Path, p.namespace@)) } else { None::<Seq<char>> })
+        && name_raw == enc(SetId::Segment, p.name@)
     })
 { }
 
@@ -2482,6 +2486,7 @@ pub proof fn lemma_pa_subpath_gen(ty: Seq<char>, p: PurlParts)
     ensures
         rsplit_at(c_b(ty, p), '#').0 == c_l(ty, p),
         (match rsplit_at(c_b(ty, p), '#').1 { None => Some(Seq::<char>::empty()), Some(x) => sub_fold(split_spec(trim_spec(x, '/'), '/')) }) == Some(sig_sub(p.subpath@)),
+        rsplit_at(c_b(ty, p), '#').1 == (if p.subpath@.len() > 0 { Some(enc(SetId::Fragment, p.subpath@)) } else { None::<Seq<char>> }),
 { }
 
 /// stage 3: the qualifiers are what follows the last '?'
@@ -2510,6 +2515,23 @@ pub proof fn lemma_parse_canon_gen(ty: Seq<char>, p: PurlParts)
     ensures
         phase_a(canon_spec(ty, p)) == Ok::<PhaseA, ParseError>(PhaseA { ty, rest: rest_of(p), sub: sig_sub(p.subpath@), kv: kvs(p.qualifiers.qualifiers@) }),
         phase_b(rest_of(p)) == Ok::<PhaseB, ParseError>(PhaseB { ns: sig_ns(p.namespace@), name: p.name@, version: p.version@ }),
+{ }
+
+/// equal encodings come from equal texts (decoding inverts encoding)
+#[verifier::external_body] /* proved in group inverse */
+pub proof fn lemma_enc_injective(set: SetId, a: Seq<char>, b: Seq<char>)
+    requires enc(set, a) == enc(set, b)
+    ensures a == b
+{ }
+
+/// C19 ("equal exactly when their canonical strings are equal", the hard direction): two handed-out values -- ANY namespace,
+/// version and subpath texts, a name, the qualifier invariant -- with the same canonical string have the same type text and
+/// the same field texts
+#[verifier::external_body] /* proved in group inverse */
+pub proof fn theorem_c19_injective(ty1: Seq<char>, p1: PurlParts, ty2: Seq<char>, p2: PurlParts)
+    requires valid_type(ty1), gen_parts(p1), valid_type(ty2), gen_parts(p2), canon_spec(ty1, p1) == canon_spec(ty2, p2)
+    ensures ty1 == ty2, p1.namespace@ == p2.namespace@, p1.name@ == p2.name@, p1.version@ == p2.version@, p1.subpath@ == p2.subpath@,
+        kvs(p1.qualifiers.qualifiers@) == kvs(p2.qualifiers.qualifiers@)
 { }
 
 // ---- unit theory.ckfix  <= (contracts):0 ----
